@@ -15,6 +15,14 @@ CLAIMED = {
          'Machine-checked proof (Lean 4) that for EVERY memory contents, data and address a write inside 0x4300 yields flat[:a]++data++flat[a+len:], keeps all five region sizes, that a write past 0x4300 is rejected, and that any sequence of writes equals the flat-memory specification (induction over the history). The memory map is regenerated from game.py by ast on every run; the function is hand-modelled (Python slice-assignment semantics included) and tied to the code by differential execution on all boundary-centred (start,end) pairs, random writes and write sequences, plus a direct flat-memory oracle on the implementation.',
          'Trusted: Lean kernel; gen_tables.py (ast extraction of memmap); bytearray slice semantics as modelled by pySlice/pySliceAssign; correspondence is testing.',
          '5/C18'),
+ 'C05': ('Lean 4 proof: loop invariants of the compressor (findBlock/compressLoop) against a reference decoder written from the :c: format; simulation proof decoder vs reference; correspondence with compiled model',
+         'Machine-checked proof (Lean 4), for EVERY byte string: the emitted stream is well formed and the reference decoder (Spec.refDecode, written from the format description) recovers the text (+PICO-8 suffix); picotool\'s decoder loop agrees with the reference decoder on EVERY well-formed stream (overlapping blocks included), and decoding header+stream+padding returns exactly the text under an explicit guard (length < 65536, text not ending in the compatibility suffix - the excluded case is a recorded known finding). The model is tied to compress.py by differential execution on all strings <= 6/8 over a 4-symbol alphabet, Lua-like text, window-edge repeats, _update60 texts, generated well-formed and malformed streams; an independent Python decoder is the oracle on the implementation.',
+         'Trusted: Lean kernel; gen_tables.py (char table, suffix strings); hand model of compress.py; correspondence is testing. Known finding: text ending with the compatibility suffix.',
+         '5/C05'),
+ 'C16': ('Lean 4 proof: model = reference format description (Spec.Formats) for all region contents, per-byte/per-field facts by kernel evaluation lifted by induction; correspondence with compiled model and Spec renderings',
+         'Machine-checked proof (Lean 4) that the section text and PNG pixel encodings of the model equal a reference description written from the PICO-8 formats (pixel rows in screen order, plain hex rows, 16-bit note words with documented bit fields, music flag byte, A2R2G2B2 channel split, memory layout) for ALL region contents, and that reading inverts writing. The model is tied to the code by differential execution (all 65,536 note words, every byte value at every gfx column, all music flag patterns, random regions, malformed lines); the implementation\'s text is also compared directly with the Lean Spec rendering and with PICO-8-written fixtures.',
+         'Trusted: Lean kernel; that Spec/Formats.lean is PICO-8\'s format (anchored by the fixtures); pypng/zlib container; correspondence is testing.',
+         '5/C16'),
 }
 NOT_YET = 'check not built yet in this round (framework under construction); will be claimed when its Lean model, theorems and correspondence run'
 
